@@ -253,7 +253,14 @@ def _gate_worker(args):
             out["documents"] += 1
             key = "%s/%s" % (name, rule)
             out["rules"][key] = out["rules"].get(key, 0) + 1
-            bp = docs.write(d, os.path.join(work, "bad.json"))
+            # history: the same path held a valid model in an earlier run of this process
+            same = os.path.join(work, "model.json")
+            docs.write(base, same)
+            o, t = os.path.join(work, "o"), os.path.join(work, "t")
+            os.makedirs(o), os.makedirs(t)
+            run_gate(gmain.main, None, spy, same, "lspverif_spy_plugin", o, t)
+            rm(o), rm(t)
+            bp = docs.write(d, same)
             for p in plugins:
                 o, t = os.path.join(work, "o"), os.path.join(work, "t")
                 os.makedirs(o), os.makedirs(t)
@@ -398,6 +405,52 @@ def run(ctx):
                 bad("equal-to-unrelated", "LSPModel", "model == %r" % (o,))
     except Exception as e:  # noqa: BLE001
         bad("eq-raises", "LSPModel", "comparing two loads of the committed model raises %s: %s" % (type(e).__name__, e), extra=type(e).__name__)
+    # whole-model comparisons where the only difference is at the END of a top-level section
+    try:
+        mb = model.create_lsp_model([copy.deepcopy(base)])
+        for key in ("requests", "notifications", "structures", "enumerations", "typeAliases"):
+            for label, edit in (("last declaration of %s dropped" % key, lambda d, k=key: d[k].pop()),
+                                ("a declaration appended to %s" % key, lambda d, k=key: d[k].append(copy.deepcopy(d[k][0])))):
+                d2 = copy.deepcopy(base)
+                edit(d2)
+                stats["equality_comparisons"] += 2
+                try:
+                    m2 = model.create_lsp_model([d2])
+                    if (mb == m2) is not False or (m2 == mb) is not False:
+                        bad("different-compare-equal", "LSPModel/section-end", "models that differ only by %s compare equal" % label, {"edit": label})
+                except Exception as e:  # noqa: BLE001
+                    bad("eq-raises", "LSPModel", "comparing models (%s) raises %s" % (label, type(e).__name__), extra=type(e).__name__)
+        # base alone vs base extended by a second file
+        stats["equality_comparisons"] += 1
+        mx = model.create_lsp_model([copy.deepcopy(base), copy.deepcopy(d_s2)])
+        if (mb == mx) is not False or (mx == mb) is not False:
+            bad("different-compare-equal", "LSPModel/section-end", "a model and the same model extended by a second file compare equal", {})
+    except Exception as e:  # noqa: BLE001
+        bad("eq-raises", "LSPModel", "whole-model comparison raises %s: %s" % (type(e).__name__, e), extra=type(e).__name__)
+    # loading must not alter the parsed documents, and loading the same parsed documents again gives an equal model
+    try:
+        empty_first = copy.deepcopy(base)
+        empty_first["notifications"] = []
+        empty_first["typeAliases"] = list(empty_first["typeAliases"])
+        ext = copy.deepcopy(d_s3)
+        for docs_list, label in (([empty_first, ext], "first file with an empty notifications section + second file"), ([copy.deepcopy(base)], "single file")):
+            before = copy.deepcopy(docs_list)
+            stats["merge_lists"] += 2
+            ma = model.create_lsp_model(docs_list)
+            if docs_list != before:
+                bad("load-alters-document", "create_lsp_model", "create_lsp_model altered the parsed input documents (%s)" % label, {"documents": label})
+            mb2 = model.create_lsp_model(docs_list)
+            expect = copy.deepcopy(before[0])
+            for d in before[1:]:
+                for key in ("requests", "notifications", "structures", "enumerations", "typeAliases"):
+                    expect[key] = expect[key] + copy.deepcopy(d[key])
+            df = diff(expect, back(mb2))
+            if df:
+                bad("merge-differs", "merge", "loading the same parsed documents a second time (%s) gives a different model: %s" % (label, df[:3]), {"documents": label})
+            if (ma == mb2) is not True:
+                bad("equal-loads-unequal", "LSPModel", "two loads of the same parsed documents (%s) compare unequal" % label, {"documents": label})
+    except Exception as e:  # noqa: BLE001
+        bad("merge-raises", "repeat", "repeated load raises %s: %s" % (type(e).__name__, e))
     samples.append({"part": "equality", "declarations": stats["equality_declarations"]})
 
     # ---- (d) gate (documents distributed over worker processes; each worker has its own scratch directory)
@@ -427,7 +480,9 @@ def run(ctx):
                 "(b) all lists of length <=3 over 4 documents merged; (c) every declaration (quick: every third structure) x every single structural "
                 "edit at every JSON node: equal loads equal, edited loads unequal, no comparison raises; (d) every schema definition x rule kind x "
                 "site class (first/middle/last instance) single edit rejected by the rooted schema x 5 plugins (4 real with recording wrappers + spy "
-                "module): command must fail, no plugin called, nothing written",
+                "module): command must fail, no plugin called, nothing written - the violating document is written to a path that held a valid "
+                "model in the previous run of the same process; whole-model equality under edits at the end of each section; repeated loads of the "
+                "same parsed documents (not altered, equal models)",
         **stats, "exhaustive": True, "samples": samples,
     }
     res.assumptions = ["'structural' excludes documentation/since/sinceTags/proposed/deprecated/typeName/supportsCustomValues (no verdict on them)",
